@@ -21,6 +21,18 @@
       (r, ty, AtCached o)  at "cached" : next = match res / downcast (thread-local; own value: downcast succeeds)
       (r, ty, AtLeave o)   at "leave"  : next = Defer: lock chain; pop; assert_eq      (file.rs get, drop guard)
 
+    Lazily loaded references (object/mod.rs `Lazy<T>`: the primitive + a once-cell; a page's fonts, annotations, …).
+    A program item (LAZY, i) is `Lazy::load` of cell i of a holder value that all threads share; [cells i] is the
+    typed reference (ty, r) the cell holds.  The once-cell protocol of `OnceCell::get_or_try_init` (once_cell 1.x,
+    sync): a full cell is cloned; the first thread that finds the cell empty becomes its initialiser ([CInit t]) and
+    runs `resolve.get::<ty>(r)` — the frames above — while it holds the cell; a thread that finds the cell being
+    initialised blocks (it is not enabled) until the initialiser is done; an initialiser whose load succeeded
+    publishes the value ([CFull]: exactly one publication per cell), one whose load failed (or panicked) leaves
+    the cell empty and returns its error, and a waiter then tries again as initialiser.  There is no yield point
+    between "cell found empty" and the "enter" of the nested get, nor between the "leave" of that get and the
+    publication: both are part of one step, as in the harness.  Not modelled: a cell whose primitive is not a
+    reference (T::from_primitive on an inline object), re-entrant initialisation of a cell by its own initialiser.
+
     [per_thread c = false] is the code before the fix (one guard stack per resolver shared by all threads),
     [true] the fixed code (guard entries keyed by ThreadId).  Outside the model: OS scheduling, lock fairness,
     memory ordering (every step is atomic and sequentially consistent here), panics in user callbacks. *)
@@ -33,13 +45,18 @@ Inductive pc :=
 | AtPublish (o : outcome) | AtCached (o : outcome) | AtHit (ty' : tytag) (o : outcome) | AtLeave (o : outcome).
 Definition frame := (ref * tytag * pc)%type.
 Definition fref (f : frame) : ref := fst (fst f).
-Definition tcall := (tytag * ref)%type.       (* one top-level call get::<ty>(r) *)
+Definition tcall := (tytag * ref)%type.       (* one top-level call get::<ty>(r), or (LAZY, i): load lazy cell i *)
+Definition LAZY : tytag := 9.
 
 Record thread := mkThread {
   stack : list frame;        (* open gets of the current top-level call, innermost first *)
   todo : list tcall;         (* top-level calls still to make *)
-  results : list outcome     (* answers of the finished top-level calls ([Panic 1] = the call panicked) *)
+  results : list outcome;    (* answers of the finished top-level calls ([Panic 1] = the call panicked) *)
+  lazy : option N            (* the lazy cell whose initialiser this thread is (its open get is the cell's load) *)
 }.
+
+(* once_cell::sync::OnceCell<MaybeRef<T>> of a Lazy<T> *)
+Inductive cstate := CEmpty | CInit (t : tid) | CFull (o : outcome).
 
 (* Result<AnySync, Arc<PdfError>>: a stored value carries the TypeId it was loaded as *)
 Inductive centry := InProcess | Computed (ty : tytag) (o : outcome).
@@ -55,7 +72,8 @@ Record gstate := mkG {
   poisoned : N -> bool;            (* resolver -> chain mutex poisoned *)
   cache : ref -> option centry;
   threads : tid -> thread;
-  aborted : bool                   (* a panic while unwinding: the process aborted *)
+  aborted : bool;                  (* a panic while unwinding: the process aborted *)
+  cellst : N -> cstate             (* the lazy cells of the shared holder *)
 }.
 
 Definition upd {A} (f : tid -> A) (t : tid) (x : A) : tid -> A := fun t' => if Nat.eqb t' t then x else f t'.
@@ -64,27 +82,57 @@ Definition updN {A} (f : N -> A) (k : N) (x : A) : N -> A := fun k' => if k' =? 
 Section Conc.
   Variable c : ccfg.
   Variable prog : tytag -> ref -> comp.     (* resolve + T::from_primitive, as in Cache/Model.v *)
+  Variable cells : N -> tcall.              (* lazy cell -> the typed reference it holds *)
 
   Definition res_of (t : tid) : N := if shared_res c then 0 else N.of_nat t + 1.
   Definition tkey (t : tid) : N := if per_thread c then N.of_nat t + 1 else 0.
 
   Definition set_thread (g : gstate) (t : tid) (th : thread) : gstate :=
-    mkG (chains g) (poisoned g) (cache g) (upd (threads g) t th) (aborted g).
+    mkG (chains g) (poisoned g) (cache g) (upd (threads g) t th) (aborted g) (cellst g).
   Definition set_chain (g : gstate) (rs tk : N) (ch : list ref) : gstate :=
-    mkG (updN (chains g) rs (updN (chains g rs) tk ch)) (poisoned g) (cache g) (threads g) (aborted g).
+    mkG (updN (chains g) rs (updN (chains g rs) tk ch)) (poisoned g) (cache g) (threads g) (aborted g) (cellst g).
   Definition set_cache (g : gstate) (r : ref) (e : centry) : gstate :=
-    mkG (chains g) (poisoned g) (updN (cache g) r (Some e)) (threads g) (aborted g).
+    mkG (chains g) (poisoned g) (updN (cache g) r (Some e)) (threads g) (aborted g) (cellst g).
   Definition set_poison (g : gstate) (rs : N) : gstate :=
-    mkG (chains g) (updN (poisoned g) rs true) (cache g) (threads g) (aborted g).
+    mkG (chains g) (updN (poisoned g) rs true) (cache g) (threads g) (aborted g) (cellst g).
   Definition set_abort (g : gstate) : gstate :=
-    mkG (chains g) (poisoned g) (cache g) (threads g) true.
+    mkG (chains g) (poisoned g) (cache g) (threads g) true (cellst g).
+  Definition set_cells (g : gstate) (cs : N -> cstate) : gstate :=
+    mkG (chains g) (poisoned g) (cache g) (threads g) (aborted g) cs.
 
-  (* the harness thread body: for r in todo { catch_unwind(get(r)) } *)
-  Definition next_call (th : thread) : thread :=
-    match stack th, todo th with
-    | [], (ty, r) :: rest => mkThread [(r, ty, AtEnter)] rest (results th)
-    | _, _ => th
+  (* the harness thread body: for item in todo { catch_unwind(get / Lazy::load) }: thread t, with no open call,
+     goes on to its next yield point: it takes the answers of full cells, becomes the initialiser of an empty cell
+     (and is then at the "enter" of the cell's load), stops in front of a cell another thread initialises, or is
+     at the "enter" of a plain get *)
+  Fixpoint start (t : tid) (td : list tcall) (res : list outcome) (cs : N -> cstate) : thread * (N -> cstate) :=
+    match td with
+    | [] => (mkThread [] [] res None, cs)
+    | (ty, r) :: rest =>
+        if ty =? LAZY then
+          match cs r with
+          | CFull o => start t rest (res ++ [o]) cs                       (* get_or_try_init: initialised, clone *)
+          | CEmpty => (mkThread [(snd (cells r), fst (cells r), AtEnter)] rest res (Some r), updN cs r (CInit t))
+          | CInit _ => (mkThread [] td res None, cs)                      (* blocks on the cell *)
+          end
+        else (mkThread [(r, ty, AtEnter)] rest res None, cs)
     end.
+
+  Definition start_next (g : gstate) (t : tid) : gstate :=
+    let th := threads g t in
+    match stack th with
+    | [] => let '(th', cs') := start t (todo th) (results th) (cellst g) in set_cells (set_thread g t th') cs'
+    | _ :: _ => g
+    end.
+
+  (* the top-level call of thread t returned o (its stack is empty now).  If it was the load of a lazy cell:
+     Ok -> the value is published (the one publication of this cell), anything else -> the cell is empty again *)
+  Definition top_done (g : gstate) (t : tid) (th : thread) (o : outcome) : gstate :=
+    let cs := match lazy th with
+              | Some i => updN (cellst g) i (match o with Ok _ => CFull o | _ => CEmpty end)
+              | None => cellst g
+              end in
+    let '(th', cs') := start t (todo th) (results th ++ [o]) cs in
+    set_cells (set_thread g t th') cs'.
 
   (* run the computation p of frame r up to its next yield point; fb: p is the uncached re-load of get's
      Err arm (its result is returned as it is: next yield point "leave") *)
@@ -95,18 +143,20 @@ Section Conc.
     end.
 
   (* the innermost get returned o: its caller continues up to its next yield point *)
-  Definition return_to (th : thread) (rest : list frame) (o : outcome) : thread :=
+  Definition finish (g : gstate) (t : tid) (th : thread) (rest : list frame) (o : outcome) : gstate :=
     match rest with
-    | [] => next_call (mkThread [] (todo th) (results th ++ [o]))
-    | (r, ty, InCall fb k) :: rest' => mkThread (advance fb r ty (k o) rest') (todo th) (results th)
-    | _ :: _ => th      (* unreachable: frames below the top are InCall *)
+    | [] => top_done g t th o
+    | (r, ty, InCall fb k) :: rest' =>
+        set_thread g t (mkThread (advance fb r ty (k o) rest') (todo th) (results th) (lazy th))
+    | _ :: _ => set_thread g t th      (* unreachable: frames below the top are InCall *)
     end.
 
   (* a panic in the innermost get: outer gets of this thread hold drop guards that lock the (now poisoned)
-     chain mutex while unwinding -> second panic -> abort; a top-level get unwinds to catch_unwind *)
+     chain mutex while unwinding -> second panic -> abort; a top-level get unwinds to catch_unwind (through
+     get_or_try_init, which leaves the cell empty) *)
   Definition panic_here (g : gstate) (t : tid) (th : thread) (rest : list frame) : gstate :=
     match rest with
-    | [] => set_thread g t (next_call (mkThread [] (todo th) (results th ++ [Panic 1])))
+    | [] => top_done g t th (Panic 1)
     | _ :: _ => set_abort g
     end.
 
@@ -123,7 +173,7 @@ Section Conc.
     if aborted g then g else
     let th := threads g t in
     match stack th with
-    | [] => g
+    | [] => start_next g t                                              (* a thread in front of a lazy cell *)
     | (r, ty, p) :: rest =>
       let rs := res_of t in
       let tk := tkey t in
@@ -131,37 +181,37 @@ Section Conc.
       | AtEnter =>                                                     (* self.chain.lock().unwrap() *)
           if poisoned g rs then panic_here g t th rest
           else if memN r (chains g rs tk) then                          (* bail!("Recursive reference") *)
-            set_thread g t (return_to th rest (Err E_OTHER))
+            finish g t th rest (Err E_OTHER)
           else set_thread (set_chain g rs tk (chains g rs tk ++ [r])) t
-                          (mkThread ((r, ty, AtPushed) :: rest) (todo th) (results th))
+                          (mkThread ((r, ty, AtPushed) :: rest) (todo th) (results th) (lazy th))
       | AtPushed =>
           if cache_on c then
             match cache g r with
             | None => set_thread (set_cache g r InProcess) t            (* Entry::Vacant *)
-                                 (mkThread (advance false r ty (prog ty r) rest) (todo th) (results th))
-            | Some (Computed ty' o) => set_thread g t (mkThread ((r, ty, AtHit ty' o) :: rest) (todo th) (results th))
+                                 (mkThread (advance false r ty (prog ty r) rest) (todo th) (results th) (lazy th))
+            | Some (Computed ty' o) => set_thread g t (mkThread ((r, ty, AtHit ty' o) :: rest) (todo th) (results th) (lazy th))
             | Some InProcess => g                                       (* condvar.wait: not enabled *)
             end
-          else set_thread g t (mkThread (advance false r ty (prog ty r) rest) (todo th) (results th))
+          else set_thread g t (mkThread (advance false r ty (prog ty r) rest) (todo th) (results th) (lazy th))
       | InCall _ _ => g
       | AtPublish o => set_thread (set_cache g r (Computed ty o)) t
-                                  (mkThread ((r, ty, AtCached o) :: rest) (todo th) (results th))
-      | AtCached o => set_thread g t (mkThread ((r, ty, AtLeave o) :: rest) (todo th) (results th))
+                                  (mkThread ((r, ty, AtCached o) :: rest) (todo th) (results th) (lazy th))
+      | AtCached o => set_thread g t (mkThread ((r, ty, AtLeave o) :: rest) (todo th) (results th) (lazy th))
       | AtHit ty' o =>                                                  (* match res, computed = false *)
           match o with
           | Ok v => if ty' =? ty                                        (* any.downcast() *)
-                    then set_thread g t (mkThread ((r, ty, AtLeave (Ok v)) :: rest) (todo th) (results th))
-                    else set_thread g t (mkThread (advance true r ty (prog ty r) rest) (todo th) (results th))
+                    then set_thread g t (mkThread ((r, ty, AtLeave (Ok v)) :: rest) (todo th) (results th) (lazy th))
+                    else set_thread g t (mkThread (advance true r ty (prog ty r) rest) (todo th) (results th) (lazy th))
           | Err e => if serve e                                         (* Err(e) if computed => …; Err(_) => load again *)
-                     then set_thread g t (mkThread ((r, ty, AtLeave (Err e)) :: rest) (todo th) (results th))
-                     else set_thread g t (mkThread (advance true r ty (prog ty r) rest) (todo th) (results th))
-          | _ => set_thread g t (mkThread (advance true r ty (prog ty r) rest) (todo th) (results th))
+                     then set_thread g t (mkThread ((r, ty, AtLeave (Err e)) :: rest) (todo th) (results th) (lazy th))
+                     else set_thread g t (mkThread (advance true r ty (prog ty r) rest) (todo th) (results th) (lazy th))
+          | _ => set_thread g t (mkThread (advance true r ty (prog ty r) rest) (todo th) (results th) (lazy th))
           end
       | AtLeave o =>                                                    (* Defer: lock, pop, assert_eq *)
           if poisoned g rs then panic_here g t th rest
           else match split_last (chains g rs tk) with
                | Some (ch', x) =>
-                   if x =? r then set_thread (set_chain g rs tk ch') t (return_to th rest o)
+                   if x =? r then finish (set_chain g rs tk ch') t th rest o
                    else panic_here (set_poison (set_chain g rs tk ch') rs) t th rest
                | None => panic_here (set_poison g rs) t th rest
                end
@@ -173,7 +223,10 @@ Section Conc.
   Definition enabled (g : gstate) (t : tid) : bool :=
     negb (aborted g) &&
     match stack (threads g t) with
-    | [] => false
+    | [] => match todo (threads g t) with
+            | [] => false
+            | (ty, r) :: _ => if ty =? LAZY then match cellst g r with CInit _ => false | _ => true end else true
+            end
     | (r, _, AtPushed) :: _ =>
         if cache_on c then match cache g r with Some InProcess => false | _ => true end else true
     | (_, _, InCall _ _) :: _ => false
@@ -181,18 +234,13 @@ Section Conc.
     end.
 
   Definition finished (g : gstate) (t : tid) : bool :=
-    match stack (threads g t) with [] => true | _ => false end.
+    match stack (threads g t), todo (threads g t) with [], [] => true | _, _ => false end.
 
-  Definition init_thread (calls : list tcall) : thread := next_call (mkThread [] calls []).
-
-  Fixpoint init_threads (progs : list (list tcall)) (t : tid) : tid -> thread :=
-    match progs with
-    | [] => fun _ => mkThread [] [] []
-    | p :: ps => upd (init_threads ps (S t)) t (init_thread p)
-    end.
-
-  Definition ginit (progs : list (list tcall)) : gstate :=
-    mkG (fun _ _ => []) (fun _ => false) (fun _ => None) (init_threads progs O) false.
+  (* before the schedule the harness starts the threads one after the other, each up to its first yield point *)
+  Definition graw (progs : list (list tcall)) : gstate :=
+    mkG (fun _ _ => []) (fun _ => false) (fun _ => None) (fun t => mkThread [] (nth t progs []) [] None) false
+        (fun _ => CEmpty).
+  Definition ginit (progs : list (list tcall)) : gstate := fold_left start_next (seq 0 (length progs)) (graw progs).
 
   (* a schedule names, step by step, the thread that is released; naming a thread that is not enabled is a no-op *)
   Definition run_sched (g : gstate) (sched : list tid) : gstate := fold_left step sched g.
